@@ -57,6 +57,9 @@ pub enum Op {
     /// reset to a configuration derived from the current one: its values permuted, or one of them
     /// changed to a neighbour (falls back to the same configuration when the result is not valid)
     ResetDerived { how: u8 },
+    /// reset to exactly the configuration the object had `n`+1 successful configuration changes ago
+    /// (X -> Y -> X; the same configuration as now when the history is not that long yet)
+    ResetBack { n: u8 },
     /// reset that must fail: 0 zero originals, 1 zero recovery, 2 both too large, 3 odd size, 4 zero size,
     /// 5 outside this family's envelope, 6 other counts (possibly the other rate) with odd size, 7 other counts with size 0
     ResetBad { variant: u8, cfg: RawCfg },
@@ -97,7 +100,7 @@ pub struct OpWeights {
 
 pub fn op(max_medium: usize, w: &OpWeights) -> BoxedStrategy<Op> {
     prop_oneof![
-        w.reset => prop_oneof![5 => raw_cfg(max_medium).prop_map(Op::Reset), 1 => Just(Op::ResetSame), 2 => (0u8..14).prop_map(|how| Op::ResetDerived { how })],
+        w.reset => prop_oneof![5 => raw_cfg(max_medium).prop_map(Op::Reset), 1 => Just(Op::ResetSame), 2 => (0u8..14).prop_map(|how| Op::ResetDerived { how }), 1 => (0u8..3).prop_map(|n| Op::ResetBack { n })],
         w.reset_bad => prop_oneof![
             3 => (0u8..8, raw_cfg(max_medium)).prop_map(|(variant, cfg)| Op::ResetBad { variant, cfg }),
             1 => (raw_cfg(max_medium), any::<bool>()).prop_map(|(cfg, zero)| Op::ResetRetry { cfg, zero }),
@@ -105,7 +108,7 @@ pub fn op(max_medium: usize, w: &OpWeights) -> BoxedStrategy<Op> {
         w.recycle => (gen::kind_rate(), gen::engine(), raw_cfg(max_medium), prop::bool::weighted(0.4)).prop_map(|(kind, eng, cfg, same)| Op::Recycle { kind, eng, cfg, same }),
         w.round => (any::<u64>(), gen::recv_spec(), prop::bool::weighted(0.85)).prop_map(|(seed, recv, read)| Op::Round { seed, recv, read }),
         w.partial => (any::<u64>(), gen::recv_spec(), any::<u16>()).prop_map(|(seed, recv, n_raw)| Op::Partial { seed, recv, n_raw }),
-        w.bad_add => (0u8..7, any::<u16>(), any::<u64>()).prop_map(|(variant, raw, seed)| Op::BadAdd { variant, raw, seed }),
+        w.bad_add => (0u8..11, any::<u16>(), any::<u64>()).prop_map(|(variant, raw, seed)| Op::BadAdd { variant, raw, seed }),
         w.finish => any::<bool>().prop_map(|read| Op::Finish { read }),
     ]
     .boxed()
@@ -324,6 +327,22 @@ pub fn bad_add(dec: bool, c: Cfg, acc: &Accepted, variant: u8, raw: u16, seed: u
     if dec {
         let oi = gen::idx_map(raw, c.k - 1).min(c.k - 1);
         let ri = gen::idx_map(raw, c.r - 1).min(c.r - 1);
+        // 7..=10: TWO faults in one call - an index that was already accepted (or is out of range) AND a wrong length
+        if (7..=10).contains(&variant) {
+            let bad_len = [c.b + 2, c.b.saturating_sub(2), c.b + 64, 0][(raw as usize / 7) % 4];
+            return match variant {
+                7 => match acc.originals.iter().nth(raw as usize % acc.originals.len().max(1)) {
+                    Some(&i) => vec![Call::AddO(i, shard_bytes(seed, false, i, bad_len))],
+                    None => vec![Call::AddO(oi, shard_bytes(seed, false, oi, c.b)), Call::AddO(oi, shard_bytes(seed ^ 0xD0B1, false, oi, bad_len))],
+                },
+                8 => match acc.recovery.iter().nth(raw as usize % acc.recovery.len().max(1)) {
+                    Some(&i) => vec![Call::AddR(i, shard_bytes(seed, true, i, bad_len))],
+                    None => vec![Call::AddR(ri, shard_bytes(seed, true, ri, c.b)), Call::AddR(ri, shard_bytes(seed ^ 0xD0B1, true, ri, bad_len))],
+                },
+                9 => vec![Call::AddO(big[raw as usize % 4], shard_bytes(seed, false, 0, bad_len))],
+                _ => vec![Call::AddR([c.r, c.r + 1, 65536, 1usize << 40][raw as usize % 4], shard_bytes(seed, true, 0, bad_len))],
+            };
+        }
         match variant {
             0 => vec![Call::AddO(oi, shard_bytes(seed, false, oi, c.b + 2))],
             1 => vec![Call::AddR(ri, Vec::new())],
@@ -359,8 +378,13 @@ pub fn bad_add(dec: bool, c: Cfg, acc: &Accepted, variant: u8, raw: u16, seed: u
 }
 
 /// Expands one op into calls (Recycle is handled by the interpreters themselves).
-pub fn expand(op: &Op, dec: bool, kind: Kind, cur: Cfg, acc: &Accepted) -> Vec<Call> {
+/// `past`: the configurations the object had before the current one (oldest first)
+pub fn expand(op: &Op, dec: bool, kind: Kind, cur: Cfg, acc: &Accepted, past: &[Cfg]) -> Vec<Call> {
     match op {
+        Op::ResetBack { n } => {
+            let c = past.iter().rev().filter(|c| kind.env(c.k, c.r)).nth(*n as usize).or(past.first()).copied().filter(|c| kind.env(c.k, c.r)).unwrap_or(cur);
+            vec![Call::Reset(c.k, c.r, c.b)]
+        }
         Op::Reset(rc) => {
             let c = rc.orient(kind);
             vec![Call::Reset(c.k, c.r, c.b)]
@@ -428,6 +452,7 @@ pub fn op_label(op: &Op) -> &'static str {
         Op::Reset(_) => "reset",
         Op::ResetSame => "reset_same",
         Op::ResetDerived { .. } => "reset_derived",
+        Op::ResetBack { .. } => "reset_back",
         Op::ResetRetry { .. } => "reset_retry",
         Op::ResetBad { .. } => "reset_bad",
         Op::Recycle { .. } => "recycle",
